@@ -347,7 +347,7 @@ def run(chk):
                 ps = meta[n]["params"]
                 predicted[n] = {"writes": [ps[int(i)] for i in w.split()], "global": g == "1", "pure": p == "1"}
                 chk.count("static:pure" if p == "1" else "static:flagged")
-            chk.obligations.update({"AoVerif.Gen.chk[%s]" % n: ["(kernel evaluation)"] for n in names})
+            chk.obligations.update({"AoVerif.Gen.chk[%s]" % n: [] for n in names})   # kernel evaluation (decide +kernel): no axioms
         except common.LeanError as ex:
             chk.broke("translator", "generated effect terms do not compile / run", str(ex))
     # ---- dynamic side
